@@ -42,6 +42,12 @@ ASSUMPTIONS = [
     "asyncio delivers a cancellation only at a suspension point of the task; unwinding (finally: await gen.aclose()) "
     "contains no further suspension point (generated code has no await in a finally except the aclose itself)",
     "user code called from a template does not swallow CancelledError/GeneratorExit",
+    "scope of 'generators the render opens': the generators the template machinery itself creates (template roots, blocks, "
+    "includes, parent templates, loop filters, generate_async). An async generator that arrives as DATA - passed in the "
+    "context, returned by a user function called from the template, or produced by an async filter (map/select/...) - is "
+    "iterated through auto_aiter without a bracket and is the caller's to close, exactly as with a plain Python `async for`; "
+    "such generators are identified by their code object, counted in the evidence "
+    "(data_generators_left_open_by_bare_data_iteration) and never reported",
 ]
 CLAIM = dict(
     category="proof",
@@ -65,9 +71,12 @@ CLAIM = dict(
          "render_async, generators tracked by firstiter and inspected after the task has finished. Known finding: the "
          "loop-filter generator of `{% for … if … %}` is iterated bare (C36:bare:loop-filter).",
     note="Trusted: Lean kernel; hand-written semantics Model/GenTree.lean (validated against CPython by correspondence); "
-         "the ast classifier of generated code; asyncio semantics. Partial: generators made by async filters and data "
-         "generators are out of scope; the static tree over-approximates dynamic runs by construction of the classifier, "
-         "not by proof.",
+         "the ast classifier of generated code; asyncio semantics. Scope: only generators created by the template "
+         "machinery (roots, blocks, includes, parents, loop filters, generate_async); async generators supplied as data "
+         "(context values, results of user functions, results of async filters) are iterated bare through auto_aiter and "
+         "are the caller's to close - counted in the evidence, not part of the claim. Partial: the static tree "
+         "over-approximates dynamic runs by construction of the classifier, not by proof; that choices after the first "
+         "attack are never consumed is checked on the model per run, not proved.",
     design_ref="§5 C36",
 )
 
